@@ -461,6 +461,8 @@ def run(prog, tier):
     # points in each frame = POINT:USED needs every frame to receive the same columns
     import p_c06
     p_c06.column_rules(prog, res, rule='column-uniform')
+    # reload: every frame is filled with the header's point / channel / sub-frame counts
+    CR.frame_reader_rule(prog, res, 'reload-shape')
     # the header fields are brought into agreement through the header's own setters
     import setters
     setters.rule(prog, res, {'ezc3d::Header'}, rule_name='header-setters', minimum=4)
